@@ -239,15 +239,19 @@ def _flavor(cell, elems, ctx):
     ka = {"object": "object", "numpy": "np1", "awkward": "jagged"}[be]
     res = {}
     variants = [("g", "g", None), ("m", "g", None), ("m", "m", None), ("g", "m", None)]
+    redundant = False
     if be == "awkward":
         # Awkward records whose fields literally carry the momentum names (px py pt pz, and each of E/e/energy, mass/M/m)
         variants += [("m", "m", 0), ("m", "g", 1), ("m", "m", 2)]
+        redundant = (zlib.crc32(cell["id"].encode()) >> 3) % 2 == 0
     for fa, fb, alt in variants:
         if not cell["db"] and fb == "m" and alt is None:
             continue
         cfg = dict(cell, ka=ka, kb=(ka if cell["db"] else None), fa=fa, fb=fb if cell["db"] else None, scal="py")
         if alt is not None:
             cfg.update(spa="momentum", spb="momentum" if fb == "m" else "generic", alt=alt)
+        if be == "awkward" and redundant:
+            cfg["extra"] = "redundant"  # every variant, so that generic and momentum spellings face the same redundant columns
         fb = (fb, alt)
         o = lattice.evaluate(cfg, elems, want_ref=False)
         ctx.evaluation()
